@@ -12,6 +12,7 @@ import JanetModel.Value.Struct
 import JanetModel.Value.StructLemmas
 import JanetModel.Value.SymCacheLemmas
 import JanetModel.Value.SymGenLemmas
+import JanetModel.Value.TraverseLemmas
 import JanetModel.Value.RobinPerm
 import JanetModel.Value.RobinDup
 import JanetModel.Value.LayoutTests
@@ -142,6 +143,49 @@ theorem symbol_identity_iff_bytes (a b : List UInt8) :
     (jcompare (.sym a : JVal N) (.sym b) = .eq ↔ a = b) ∧ (jcompare (.kw a : JVal N) (.kw b) = .eq ↔ a = b) := by
   refine ⟨by simp [equals], by simp [equals], by simp [equals], by simp [equals], by simp [equals], ?_, ?_⟩ <;>
     simp [jcompare, bytesCompare_eq_iff]
+
+/-! ### the explicit traversal stack of value.c (session 4; model `Value/Traverse.lean`, proof `Value/TraverseLemmas.lean`)
+
+`janet_equals` and `janet_compare` do not recurse: they keep a stack of `JanetTraversalNode`s (`push_traversal_node`,
+`traversal_next`) and loop.  `Traverse.compareIter` / `Traverse.equalsIter` mirror those loops statement by statement (frames
+with `index` / `index2`, the statuses 0–3 of `traversal_next`, `return status - 2`, `return 1` after any non-zero status).
+They compute exactly the recursive `jcompare` / `equals` every other theorem of this file is about — for all values whose
+structs have the shape `janet_struct_begin` gives them (`WFv`: `janet_tablen(2·length)` slots, at most one prototype), nested
+to any depth and of any width.  So every law above holds of the iterative algorithm. -/
+
+section traversal
+open JanetModel.Value.Traverse
+omit [LawfulNum N]
+
+theorem compare_traversal_stack_is_recursive (x y : JVal N) (hx : WFv x) (hy : WFv y) :
+    compareIter x y = some (jcompare x y) := compareIter_eq x y hx hy
+
+theorem equals_traversal_stack_is_recursive (x y : JVal N) (hx : WFv x) (hy : WFv y) :
+    equalsIter x y = some (equals x y) := equalsIter_eq x y hx hy
+
+/-- the loop invariant itself, from ANY reachable state (stack of frames left by earlier iterations): the loop returns the
+    recursive comparison of the current pair, then lexicographically what the frames still hold, top frame first -/
+theorem compare_traversal_loop_invariant (fuel : Nat) (x y : JVal N) (st : List (Frame N)) (hst : StackOK true st)
+    (hx : WFv x) (hy : WFv y) (hf : weight x + stackW st < fuel) :
+    compareLoop fuel x y st = some ((jcompare x y).then (restCmp st)) := compareLoop_spec fuel x y st hst hx hy hf
+
+/-- non-vacuity: a struct with a prototype inside a bracketed tuple inside a tuple is well-formed, and the iterative
+    algorithms run on it (against a copy that differs in the prototype's value) -/
+example :
+    let p : JVal F64 := .struct [.kw [112], .num ⟨0x3FF0000000000000⟩, .nil, .nil, .nil, .nil, .nil, .nil] []
+    let q : JVal F64 := .struct [.kw [112], .num ⟨0x4000000000000000⟩, .nil, .nil, .nil, .nil, .nil, .nil] []
+    let a : JVal F64 := .tuple false [.str [97], .tuple true [.struct [.nil, .nil, .kw [107], .bool true, .nil, .nil, .nil, .nil] [p]], .nil]
+    let b : JVal F64 := .tuple false [.str [97], .tuple true [.struct [.nil, .nil, .kw [107], .bool true, .nil, .nil, .nil, .nil] [q]], .nil]
+    compareIter a a = some .eq ∧ equalsIter a a = some true ∧ compareIter a b = some (jcompare a b) ∧ equalsIter a b = some false ∧
+      compareIter a b ≠ some .eq := by
+  decide +kernel
+
+example : WFv (.tuple false [.str [97], .tuple true [.struct [.nil, .nil, .kw [107], .bool true, .nil, .nil, .nil, .nil]
+    [.struct [.kw [112], .num (⟨0x3FF0000000000000⟩ : F64), .nil, .nil, .nil, .nil, .nil, .nil] []]], .nil] : JVal F64) := by
+  simp only [WFv, WFl, and_true, true_and, List.length_cons, List.length_nil]
+  decide
+
+end traversal
 
 /-! ### symbol interning (src/core/symcache.c, model `Value/SymCache.lean`)
 
